@@ -226,15 +226,21 @@ def handle (op payload : String) : String :=
       | _, _ => "bad-request"
     | _ => "bad-request"
   | "optype" =>
-    -- (bin op l r) | (un op t) | (cast s d)
+    -- (bin op L R) | (un op T) | (cast s d) | (ptr op)   with operand types  prim | (ptr T) | other
+    let rec otOf : Nat → Sexp → Option Types.OT
+      | 0, _ => none
+      | _, .atom "other" => some .other
+      | _, .atom a => (Types.primOf a).map .prim
+      | fuel + 1, .list [.atom "ptr", t] => (otOf fuel t).map .pointer
+      | _, _ => none
     match Sexp.parse payload with
-    | some (.list [.atom "bin", .atom op, .atom l, .atom r]) =>
-      match Types.opOf op, Types.primOf l, Types.primOf r with
-      | some op, some l, some r => toString (Types.binaryVerdict op (.prim l) (.prim r))
+    | some (.list [.atom "bin", .atom op, l, r]) =>
+      match Types.opOf op, otOf 8 l, otOf 8 r with
+      | some op, some l, some r => toString (Types.binaryVerdict op l r)
       | _, _, _ => "bad-request"
-    | some (.list [.atom "un", .atom op, .atom t]) =>
-      match Types.opOf op, Types.primOf t with
-      | some op, some t => toString (Types.unaryVerdict op (.prim t))
+    | some (.list [.atom "un", .atom op, t]) =>
+      match Types.opOf op, otOf 8 t with
+      | some op, some t => toString (Types.unaryVerdict op t)
       | _, _ => "bad-request"
     | some (.list [.atom "cast", .atom s, .atom d]) =>
       match Types.primOf s, Types.primOf d with
@@ -242,7 +248,7 @@ def handle (op payload : String) : String :=
       | _, _ => "bad-request"
     | some (.list [.atom "ptr", .atom op]) =>
       match Types.opOf op with
-      | some op => toString (Types.binaryVerdict op .pointer .pointer)
+      | some op => toString (Types.binaryVerdict op (.pointer (.prim .i32)) (.pointer (.prim .i32)))
       | none => "bad-request"
     | _ => "bad-request"
   | "legal" =>
